@@ -45,7 +45,7 @@ def setup():
 
 # ------------------------------------------------------------------------------------------ trees
 
-SHAPES = ["wide", "indep", "min", "lt", "scale", "shared", "lt_single", "lt_first_single", "lt_alloc", "lt_min", "lt_nested", "lt_nested_left", "wchoose", "lt_wchoose", "mchoose", "alloc_cap"]
+SHAPES = ["wide", "indep", "min", "lt", "scale", "shared", "lt_single", "lt_first_single", "lt_alloc", "lt_min", "lt_min_alloc", "lt_nested", "lt_nested_left", "wchoose", "lt_wchoose", "mchoose", "alloc_cap"]
 
 
 def instances(tier):
@@ -57,7 +57,7 @@ def instances(tier):
             for disc in (1, 2) if quick else (1, 2, 3):
                 for variant in (0, 1, 2, 3) if quick else range(6):
                     for passes in ((0, 0), (1, 1)) if quick else ((0, 0), (1, 0), (0, 1), (1, 1)):
-                        if quick and (variant + disc + len(parts) + passes[0]) % 2 and shape not in ("lt", "lt_alloc", "lt_single", "lt_first_single", "lt_nested_left", "wchoose", "lt_wchoose"):
+                        if quick and (variant + disc + len(parts) + passes[0]) % 2 and shape not in ("lt", "lt_alloc", "lt_single", "lt_first_single", "lt_nested_left", "wchoose", "lt_wchoose", "lt_min_alloc", "mchoose"):
                             continue
                         out.append({"name": f"{shape}-p{''.join(map(str, parts))}-d{disc}-v{variant}-cp{passes[0]}purge{passes[1]}", "shape": shape, "parts": parts, "disc": disc,
                                     "variant": variant, "passes": list(passes)})
@@ -171,6 +171,16 @@ def make_tree(spec, fine=False):
             c = task("C", 1, durC, [0, 2], 1)
         edges += [(lt, a), (lt, b), (root, lt), (root, c)]
         now = 0
+    elif shape == "lt_min_alloc":
+        # the first operand of the LessThan is a Min over a running task (Allocation) and a schedulable one: what comes after must wait for both
+        lt = add("LT", name="lt1")
+        mn = add("MIN", name="min1")
+        run = 3 + var % 2
+        a = add("ALLOC", name="A", start=0, dur=run * disc, alloc={pids[0]: 1})
+        b = task("B", reqB, 1, [0, 1], 1)
+        c = task("C", 1, durC, [1, 2, run, run + 1], 2)
+        edges += [(mn, a), (mn, b), (lt, mn), (lt, c), (root, lt)]
+        base, now = 0, 0
     elif shape == "lt_min":
         lt = add("LT", name="lt1")
         mn = add("MIN", name="min1")
@@ -223,8 +233,10 @@ def make_tree(spec, fine=False):
         edges.append((root, c))
     elif shape == "mchoose":
         n0 = -(-now // disc)
-        a = add("MCHOOSE", name="A", slots=2 + var % 2, start=n0 * disc, end=(n0 + 3) * disc, gran=g, util=2, parts=pids)
-        b = task("B", reqB, durB, [n0, n0 + 1], 1)
+        # odd variants on the unit grid: rectangles twice as wide as the capacity slots, and a Choose that can start in the middle of one
+        mg = 2 * g if (var % 2 == 1 and disc == 1 and not fine) else g
+        a = add("MCHOOSE", name="A", slots=2 + var % 2, start=n0 * disc, end=n0 * disc + 3 * mg, gran=mg, util=2, parts=pids)
+        b = task("B", reqB, 1 if mg != g else durB, [n0, n0 + 1], 1)
         edges += [(root, a), (root, b)]
     elif shape == "alloc_cap":
         # a running task fills part of the cluster; the rest must fit around it
@@ -929,6 +941,8 @@ def check_instance(spec):
 def signature(spec, v):
     if v["label"] == "C20:passes-make-the-compiler-raise" and "must have at least one child with utility" in str(v["detail"].get("exception")) and spec["passes"][0] == 1 and not spec.get("dyn"):
         return "critical-path-pass-leaves-a-max-whose-only-option-is-in-the-past"
+    if v["label"] == "C20:model-is-infeasible" and spec["shape"] == "lt_min_alloc":
+        return "min-over-an-allocation-bounds-its-end-time-unconditionally"
     return v["label"] + ":" + spec["shape"]
 
 
